@@ -16,6 +16,8 @@
 EXTENDS Integers, Sequences, FiniteSets, TLC
 
 CONSTANTS Accts, Slots, Offs, Types, Names, Vals, MaxOps, MaxCalls,
+          AllowConflicts,  \* BOOLEAN: also generate a registration that re-uses a name for another (slot, offset, type): it is accepted
+                           \* and its key can be journaled and found by slot; which record the NAME then denotes is not judged
           MaxRefused,      \* at most this many refused operations in one history (they are what blows the space up)
           ProbeSlot,       \* a slot never used for a well-formed registration: stands for "unknown parent"
           DevFirstWins
@@ -66,6 +68,15 @@ WellFormed(a, path, s, o, t) ==
   /\ \A r \in reg : (r.acct = a /\ r.path = path) => (r.slot = s /\ r.off = o /\ r.type = t)
   /\ \A r \in reg : (r.acct = a /\ r.slot = s /\ r.off = o /\ r.type = t) => r.path = path
 
+\* a name that already denotes another layout, for a (slot, offset, type) nobody registered yet
+NameConflict(a, path, s, o, t) ==
+  /\ AllowConflicts
+  /\ \E r \in reg : r.acct = a /\ r.path = path /\ <<r.slot, r.off, r.type>> # <<s, o, t>>
+  /\ RegOf(a, s, o, t) = {}
+\* the ghost record of such a registration has no usable name: its path starts with "#"
+Named(r) == r.path[1] # "#"
+PathFor(a, path, s, o, t) == IF NameConflict(a, path, s, o, t) THEN <<"#", ToString(Cardinality(reg))>> \o path ELSE path
+
 Rec(op, a, n, ps, pt, s, o, t, v, res) ==
   [op |-> op, acct |-> a, name |-> n, pslot |-> ps, ptype |-> pt, slot |-> s, off |-> o, type |-> t, val |-> v, res |-> res]
 
@@ -96,7 +107,7 @@ Refused(rec) ==
   /\ UNCHANGED <<keys, kchild, kname, index, roots, chg, calls, cur, reg, exp>>
 
 RegTop(a, n, s, o, t) ==
-  /\ WellFormed(a, <<n>>, s, o, t)
+  /\ WellFormed(a, <<n>>, s, o, t) \/ (o <= 31 /\ NameConflict(a, <<n>>, s, o, t))
   /\ IF o > 31
      THEN Refused(Rec("regtop", a, n, 0, "", s, o, t, "", "refused"))
      ELSE LET dup == [acct |-> a, path |-> <<n>>, slot |-> s, off |-> o, type |-> t] \in reg
@@ -106,7 +117,7 @@ RegTop(a, n, s, o, t) ==
           IN \* two steps of the Go code folded into one action: create the root if missing, then AddChild
              /\ AddUnder(a, ks, root, n, s, o, t)
              /\ roots' = IF hasRoot THEN roots ELSE roots \cup {<<a, root>>}
-             /\ reg' = reg \cup {[acct |-> a, path |-> <<n>>, slot |-> s, off |-> o, type |-> t]}
+             /\ reg' = reg \cup {[acct |-> a, path |-> PathFor(a, <<n>>, s, o, t), slot |-> s, off |-> o, type |-> t]}
              /\ hist' = Append(hist, Rec("regtop", a, n, 0, "", s, o, t, "", IF dup THEN "dup" ELSE "ok"))
              /\ UNCHANGED <<chg, calls, cur, exp>>
 
@@ -121,13 +132,13 @@ RegNested(a, ps, pt, n, s, o, t) ==
               path == Append(p.path, n)
               dup == [acct |-> a, path |-> path, slot |-> s, off |-> o, type |-> t] \in reg
               pk == FindKey(a, ps, 0, pt)
-          IN /\ WellFormed(a, path, s, o, t)
-             /\ Len(path) <= 3
+          IN /\ WellFormed(a, path, s, o, t) \/ NameConflict(a, path, s, o, t)
+             /\ Len(path) <= 3 \/ ~Named(p)
              /\ IF pk = 0
                 THEN \* the flat index does not know a registered parent (only reachable with DevFirstWins)
                      UNCHANGED <<keys, kchild, kname, index>>
                 ELSE AddUnder(a, keys, pk, n, s, o, t)
-             /\ reg' = reg \cup {[acct |-> a, path |-> path, slot |-> s, off |-> o, type |-> t]}
+             /\ reg' = reg \cup {[acct |-> a, path |-> PathFor(a, path, s, o, t), slot |-> s, off |-> o, type |-> t]}
              /\ hist' = Append(hist, Rec("regnested", a, n, ps, pt, s, o, t, "", IF dup THEN "dup" ELSE "ok"))
              /\ UNCHANGED <<roots, chg, calls, cur, exp>>
 
@@ -171,15 +182,16 @@ Spec == Init /\ [][Next]_vars
 
 \* by name/index path and by (slot, offset, type) reach the same record
 LookupAgree ==
-  \A r \in reg : FindByPath(r.acct, r.path) # 0 /\ FindByPath(r.acct, r.path) = FindKey(r.acct, r.slot, r.off, r.type)
+  \A r \in reg : IF Named(r) THEN FindByPath(r.acct, r.path) # 0 /\ FindByPath(r.acct, r.path) = FindKey(r.acct, r.slot, r.off, r.type)
+                 ELSE FindKey(r.acct, r.slot, r.off, r.type) # 0
 \* a change journaled for a registered key is returned by both
 ChangeVisibleBoth ==
-  \A r \in reg : /\ Changes(FindByPath(r.acct, r.path)) = Get(exp, r, <<>>)
+  \A r \in reg : /\ Named(r) => Changes(FindByPath(r.acct, r.path)) = Get(exp, r, <<>>)
                  /\ Changes(FindKey(r.acct, r.slot, r.off, r.type)) = Get(exp, r, <<>>)
 \* the child indices reported for a node are exactly those registered under it
 KidsOf(r) == {n \in Names : PathTaken(r.acct, Append(r.path, n))}
 ChildIndicesExact ==
-  /\ \A r \in reg : FindByPath(r.acct, r.path) # 0 => ChildNames(FindByPath(r.acct, r.path)) = KidsOf(r)
+  /\ \A r \in reg : (Named(r) /\ FindByPath(r.acct, r.path) # 0) => ChildNames(FindByPath(r.acct, r.path)) = KidsOf(r)
   /\ \A a \in Accts : RootOf(a) # 0 => ChildNames(RootOf(a)) = {n \in Names : PathTaken(a, <<n>>)}
 \* refused operations and repeated registrations modify nothing
 RefuseIdempotent ==
@@ -194,7 +206,7 @@ SetToSeq(S) == LET RECURSIVE f(_) f(T) == IF T = {} THEN <<>> ELSE LET x == CHOO
 ExpOf(r) == LET e == Get(exp, r, <<>>) IN SetToSeq({[idx |-> i, vals |-> e[i]] : i \in DOMAIN e})
 Expect ==
   [ hist |-> hist,
-    reg  |-> SetToSeq({[acct |-> r.acct, path |-> r.path, slot |-> r.slot, off |-> r.off, type |-> r.type,
+    reg  |-> SetToSeq({[acct |-> r.acct, path |-> r.path, slot |-> r.slot, off |-> r.off, type |-> r.type, named |-> Named(r),
                          chg |-> ExpOf(r), kids |-> SetToSeq(KidsOf(r))] : r \in reg}),
     tops |-> SetToSeq({[acct |-> a, kids |-> SetToSeq({n \in Names : PathTaken(a, <<n>>)})] : a \in Accts}) ]
 =============================================================================
